@@ -215,7 +215,9 @@ pub fn strategy_wide(max_width: usize) -> impl Strategy<Value = Case> {
                 mode,
                 commands,
                 undefined,
-                failing: None,
+                // in a third of the wide cases one command file (of a target somewhere in the wide
+                // layer, or above it) lacks the x bit: its group still lists every member
+                failing: if picks[2] % 3 == 0 { Some((0, picks[3], 8)) } else { None },
                 explicit_defs: false,
                 via_sequence: 0,
                 deps_alone: mode_k == 1 && width % 2 == 0,
